@@ -32,7 +32,7 @@ import (
 const nLetters = 15
 
 var letterNames = []string{"SETTINGS{3:100}", "SETTINGS{0x99:7,4:1048576}", "SETTINGS-ACK", "WINDOW_UPDATE(0,15663105)", "WINDOW_UPDATE(open,7)",
-	"PRIORITY(next+4)", "PRIORITY(1,excl)", "HEADERS", "HEADERS+prio(order2)", "HEADERS+CONTINUATION", "HEADERS(open)", "TRAILERS", "DATA(end)", "PING", "WINDOW_UPDATE(closed,9)"}
+	"PRIORITY(next+4)", "PRIORITY(1,excl)", "HEADERS", "HEADERS+prio(order2)", "HEADERS+CONTINUATION", "HEADERS(open)", "TRAILERS(+prio on streams 1,5,..)", "DATA(end)", "PING", "WINDOW_UPDATE(closed,9)"}
 
 type result struct {
 	stream uint32
@@ -163,8 +163,16 @@ func (s *sess) apply(l int) bool {
 			return false
 		}
 		fs := []h2wire.HF{{Name: "x-trailer", Value: "t"}}
-		c.Send(h2wire.Headers(s.open, c.Enc.Block(fs...), true, true, nil, -1))
-		s.ref.OnHeaders(names(fs), nil)
+		// on every other stream the trailer HEADERS frame carries a priority field: it is a HEADERS frame with
+		// priority like any other and belongs to the fingerprint of everything that is answered after it
+		var prio *h2wire.Prio
+		var rp *h2fpref.Priority
+		if s.open%4 == 1 {
+			prio = &h2wire.Prio{Dep: 0, Excl: true, Weight: uint8(90 + s.open)}
+			rp = &h2fpref.Priority{Stream: s.open, Dep: 0, Excl: true, Weight: prio.Weight}
+		}
+		c.Send(h2wire.Headers(s.open, c.Enc.Block(fs...), true, true, prio, -1))
+		s.ref.OnHeaders(names(fs), rp)
 		s.open = 0
 	case 12:
 		if s.open == 0 {
